@@ -188,37 +188,37 @@ package introspection
 // whitespace included - and null only for the empty description.
 //@ func (*EnumValue).Description [C16]
 //@   requires f != nil
-//@   nopanic
+//@   safe
 //@   modifies nothing
 //@   ensures f.description == "" ==> res0 == nil
 //@   ensures f.description != "" ==> res0 != nil && deref(res0) == f.description
 //@ func (*Field).Description [C16]
 //@   requires f != nil
-//@   nopanic
+//@   safe
 //@   modifies nothing
 //@   ensures f.description == "" ==> res0 == nil
 //@   ensures f.description != "" ==> res0 != nil && deref(res0) == f.description
 //@ func (*InputValue).Description [C16]
 //@   requires f != nil
-//@   nopanic
+//@   safe
 //@   modifies nothing
 //@   ensures f.description == "" ==> res0 == nil
 //@   ensures f.description != "" ==> res0 != nil && deref(res0) == f.description
 //@ func (*Directive).Description [C16]
 //@   requires f != nil
-//@   nopanic
+//@   safe
 //@   modifies nothing
 //@   ensures f.description == "" ==> res0 == nil
 //@   ensures f.description != "" ==> res0 != nil && deref(res0) == f.description
 //@ func (*Schema).Description [C16]
 //@   requires s != nil && s.schema != nil
-//@   nopanic
+//@   safe
 //@   modifies nothing
 //@   ensures s.schema.Description == "" ==> res0 == nil
 //@   ensures s.schema.Description != "" ==> res0 != nil && deref(res0) == s.schema.Description
 //@ func (*Type).Description [C16]
 //@   requires t != nil
-//@   nopanic
+//@   safe
 //@   modifies nothing
 //@   ensures t.def == nil ==> res0 == nil
 //@   ensures t.def != nil && t.def.Description == "" ==> res0 == nil
